@@ -170,6 +170,10 @@ check("C15", "replicas cannot stall or fail the primary (safety core)", [
 
 check("C16", "a replica refuses client writes but keeps applying replicated ones", [
     ob("VerifC16_ReadOnlyRejects", "pkg/engine", "read-only EngineFacade: client mutators rejected with nothing changed and no lock left held, *Internal bypasses apply, flag kept", "5 mutator shapes + bypasses"),
+    ob("VerifC16_ServiceRejectsOnReplica", "pkg/grpc/service", "remote Put / Delete / BatchWrite / read-write BeginTransaction+TxPut+TxDelete+commit / Compact (force or not) on a node whose engine is read-only: data unchanged, no marker key, plain writes fail, nothing left locked, Get and Scan still served, flag kept",
+       "6 request shapes, preemption bound 0 (Begin's worker goroutine)", q={"preempt": 0}, no_validate=True),
+    ob("VerifC16_NodeInfoTruthful", "pkg/grpc/service", "GetNodeInfo through the real replication.Manager and the service handler: role, primary address and read-only status truthful for standalone/primary/replica and both flag values, also after the flag changes; the reported status is the enforced one",
+       "4 role configurations x 2 rounds x 2 flag values"),
     ob("VerifC16_ApplyVsClientWrite", "pkg/engine", "a replicated operation applied through PutInternal / DeleteInternal / ApplyBatchInternal concurrently with a client put / delete / batch / read-write transaction and a status query: the client write is refused, its key never appears, the replicated operation takes effect, read-only is reported throughout, no lock left held",
        "3 apply shapes x 4 client shapes, preemption bound 1", "preemption bound 2", q=P1, t=P2, no_validate=True),
 ], [SIMFS, CLOCK, HASH, BLOOM, JSON, LOG, TIERA], [])
